@@ -1076,27 +1076,25 @@ class Module(ABC):
             grouped_view.apply(lambda x: x.index.values, include_groups=False)
         )
 
+        # The initial value of a shared parameter is the mean over its (unpadded) group.
+        param_means = [np.mean(data.loc[inds, key].to_numpy()) for inds in comp_inds]
+
         # check if all shapes in comp_inds are the same. If not the case this means
         # the groups in controlled_by_param have different sizes, i.e. due to different
         # number of comps for two different branches. In this case we pad the smaller
-        # groups with -1 to make them the same size.
+        # groups to make them the same size. The padding repeats the first index of
+        # the group itself, such that the padded entries write the value of the
+        # parameter into a compartment which belongs to the group anyways (padding
+        # with `-1` would overwrite the last compartment of the module).
         lens = np.array([inds.shape[0] for inds in comp_inds])
         max_len = np.max(lens)
-        pad = lambda x: np.pad(x, (0, max_len - x.shape[0]), constant_values=-1)
+        pad = lambda x: np.pad(x, (0, max_len - x.shape[0]), constant_values=x[0])
         if not np.all(lens == max_len):
             comp_inds = [
                 pad(inds) if inds.shape[0] < max_len else inds for inds in comp_inds
             ]
 
-        # Sorted inds are only used to infer the correct starting values.
         indices_per_param = jnp.stack(comp_inds)
-
-        # Assign dummy param (ignored by nanmean later). This adds a new row to the
-        # `data` (which is, e.g., self.nodes). That new row has index `-1`, which does
-        # not clash with any other node index (they are in
-        # `[0, ..., num_total_comps-1]`).
-        data.loc[-1, key] = np.nan
-        param_vals = jnp.asarray([data.loc[inds, key].to_numpy() for inds in comp_inds])
 
         # Set the value which the trainable parameter should take.
         num_created_parameters = len(indices_per_param)
@@ -1113,7 +1111,7 @@ class Module(ABC):
                     f"init_val must a float, list, or None, but it is a {type(init_val).__name__}."
                 )
         else:
-            new_params = jnp.nanmean(param_vals, axis=1)
+            new_params = jnp.asarray(param_means)
         self.base.trainable_params.append({key: new_params})
         self.base.indices_set_by_trainables.append(indices_per_param)
         self.base.num_trainable_params += num_created_parameters
